@@ -97,7 +97,7 @@ def gen_chain(rng):
     return {"stratum": "chain", "content": content, "what": "resp", "cfg": None,
             "to_scan": None if rng.random() < 0.6 else rng.sample([k for k, _ in pars], rng.randint(1, n + 1)),
             "vars": None if rng.random() < 0.5 else [[k, rng.choice(["1", "3", "1/4"])] for k, _ in vars_],
-            "normalized": rng.random() < 0.6, "d": "1/8192"}
+            "normalized": rng.random() < 0.6, "d": rng.choice(["1/32", "1/64"])}
 
 
 def gen_euler(rng):
@@ -106,8 +106,11 @@ def gen_euler(rng):
     plain_p = [k for k, v in content["pars"] if "v" in v]
     r = rng.random()
     vars_ = None if r < 0.4 else [[k, rng.choice(["1", "2", "3", "1/2"])] for k in (vnames if r < 0.7 else rng.sample(vnames, rng.randint(1, len(vnames))))]
+    nss = rng.randint(1, 4)
+    while H9.state_degree(content) ** nss > 64:  # keep doubles far from overflow and rationals small
+        nss -= 1
     return {"stratum": "euler", "content": content, "what": "resp",
-            "cfg": {"nss": rng.randint(1, 4), "h": rng.choice(["1/4", "1/8", "1/2"]), "fail": []},
+            "cfg": {"nss": nss, "h": rng.choice(["1/4", "1/8", "1/2"]), "fail": []},
             "to_scan": rng.sample(plain_p, rng.randint(1, len(plain_p))),
             "vars": vars_, "normalized": rng.random() < 0.5, "d": rng.choice(DISP)}
 
@@ -232,9 +235,13 @@ def oracle_poly(case):
 
 
 def oracle_chain(case):
-    """x_i* = k0 / k_{i+1}; every steady-state flux = k0"""
+    """x_i* = k0 / k_{i+1}; every steady-state flux = k0.  The expected number is the central difference
+    of THIS exact steady-state map (so the displacement can be large enough to drown the integrator's
+    1e-6 noise, which the quotient amplifies by 1/(2d)): linear in k0 -> exact; in k_{i+1}: the
+    derivative times 1/(1-d^2)."""
     c = case["content"]
     ks = [Fraction(v["v"]) for _, v in c["pars"]]
+    d = Fraction(case["d"])
     n = len(c["vars"])
     names = case["to_scan"] or [k for k, _ in c["pars"]]
     cols, fcols = [], []
@@ -243,9 +250,9 @@ def oracle_chain(case):
         col, fcol = [], []
         for i in range(n):
             if case["normalized"]:
-                v = 1 if j == 0 else (-1 if j == i + 1 else 0)
+                v = Fraction(1) if j == 0 else (-1 / (1 - d * d) if j == i + 1 else Fraction(0))
             else:
-                v = (1 / ks[i + 1]) if j == 0 else (-ks[0] / ks[i + 1] ** 2 if j == i + 1 else 0)
+                v = (1 / ks[i + 1]) if j == 0 else (-ks[0] / ks[i + 1] ** 2 / (1 - d * d) if j == i + 1 else Fraction(0))
             col.append([f"x{i}", float(v)])
         for i in range(n + 1):
             fcol.append([f"v{i}", float(1 if j == 0 else 0)])
@@ -396,6 +403,17 @@ def shape(case):
             f"-{'norm' if case['normalized'] else 'raw'}-{'y' if case['vars'] else 'init'}-d{case['d']}")
 
 
+def mask_nonfinite(ref, x):
+    """the model has no overflow: where the real entry is non-finite (None) the model's entry is not compared"""
+    if ref is None:
+        return None
+    if isinstance(x, list) and isinstance(ref, list) and len(x) == len(ref):
+        return [mask_nonfinite(r, y) for r, y in zip(ref, x)]
+    if isinstance(x, dict) and isinstance(ref, dict) and set(x) == set(ref):
+        return {k: mask_nonfinite(ref[k], v) for k, v in x.items()}
+    return x
+
+
 def judge_case(ctx, case, modes, S, Rs, Ms):
     if "skip" in S:
         ctx.hist["skipped_" + S["skip"]] = ctx.hist.get("skipped_" + S["skip"], 0) + 1
@@ -408,7 +426,7 @@ def judge_case(ctx, case, modes, S, Rs, Ms):
         Rn = L.snap(S, R, tol)
         Mj = None
         if M is not None:
-            Mn = L.snap(Rn, M, TOL)
+            Mn = L.snap(Rn, mask_nonfinite(Rn, M), TOL)
             Mj = L.jnum(Mn)
         ctx.judge(sub, L.jnum(Rn), Sj, Mj, finding=classify(case, mode, Rn, S), what=f"{case['what']} mode {mode}")
     # sequential and parallel runs must agree with each other much more tightly than with the analytic value
@@ -451,7 +469,7 @@ def setup(ctx):
     ctx.build(PROPS)
     ctx.rule = (
         "powerlaw: networks of 1-3 reactions k-products x variable-products with integer orders 0-3 (parameters 0-2), "
-        "dyadic positive values, custom or initial state, scaled/unscaled, displacement 2^-10 / 2^-13; poly: random "
+        "dyadic positive values, custom or initial state, scaled/unscaled, displacement 2^-10 / 2^-13 (chain: 2^-5 / 2^-6); poly: random "
         "polynomial models incl. initial assignments and derived; chain: linear chains of 1-3 pools with the shipped "
         "integrator; euler: random polynomial models with the toy integrator, custom variables (full / partial / none); "
         "response coefficients run sequentially and with 1/2/16 pool processes; distinct = distinct case; non-trivial = "
@@ -465,8 +483,28 @@ def setup(ctx):
     ctx.trusted_base += ["pebble / multiprocessing / pickle; scipy LSODA in the chain stratum; pandas arithmetic on Series"]
 
 
+def probe_ia_parameter(ctx):
+    """outside the quantifier, recorded: parameter_elasticities on an initial-assignment parameter"""
+    content = {"vars": [["x", {"v": "1"}]],
+               "pars": [["k", {"v": "2"}], ["q", {"ia": {"args": ["k"], "e": ["*", ["c", "2"], ["a", 0]]}}]],
+               "derived": [], "surs": [],
+               "rxns": [["v", {"args": ["q", "x"], "e": ["*", ["a", 0], ["a", 1]], "st": [["x", {"c": "-1"}]]}]]}
+    case = {"stratum": "poly", "content": content, "what": "par", "to_scan": ["q"], "vars": None,
+            "normalized": True, "d": "1/1024", "t": "0"}
+    R = run_real(case, ["seq"])
+    M = None
+    if ctx.driver_ok:
+        a = driver.call_batch([model_request(case, ["seq"])])[0]
+        M = {"err": [a["err"][0]]} if "err" in a else {"ok": True}
+    ctx.notes.append(f"recorded (outside the quantifier): parameter_elasticities(to_scan=['q']) with q defined by an "
+                     f"initial assignment -> real {R.get('err', 'no error')}, model {M and M.get('err', 'no error')}")
+    if M is not None and ("err" in R) != ("err" in M):
+        ctx.add_drift(case, R, M, "initial-assignment parameter probe")
+
+
 def run(ctx):
     setup(ctx)
+    probe_ia_parameter(ctx)
     rng = ctx.rng
     thorough = ctx.tier == "thorough" or not ctx.proof_ok
     cases = list(corpus())
